@@ -12,7 +12,7 @@ def plan(t):
     # (the 23/22-step replace chains fold away for patterns whose bytes are not in the alphabet)
     return dict(comp_lens=(1, 2), pair_lens=[(1, 1)] if q else [(1, 1), (1, 2), (2, 1)],
                 small=[('%256a', 3), ('&=%3D2', 3), ('+ %2B0', 3)] if q else [('%256a', 3), ('%256a', 4), ('%256a', 5), ('&=%3D26', 3), ('&=%3D26', 4), ('+ %2B0', 3), ('+ %2B0', 4), ('?#/%3F2', 3), ('?#/%3F2', 4)],
-                small_pairs=[('%26a=', (3, 1))] if q else [('%26a=', (3, 1)), ('%26a=', (1, 3)), ('%26a=&', (2, 2)), ('+ %2B', (2, 2))])
+                small_pairs=[] if q else [('%2a', (2, 1)), ('&=a', (1, 2))])
 
 
 def case(prog, params):
@@ -55,12 +55,21 @@ def case(prog, params):
             qs = o.outcome[1]
             st2 = State(); st2.pc = list(o.pc)
             if ob == 'query': outs2 = ex.run_fn('parse_url_search_params', [qs], st2)
+            elif ob == 'target':
+                rq = request('GET', S('/form-get-method?').concat(qs), [])
+                outs2 = ex.run_fn('Request::get_uri_query', [rq], st2)
             else: outs2 = ex.run_fn('FormUrlEncoded::parse', [qs], st2)
             for o2 in outs2:
                 def w(m): return {'ob': ob, 'k': model_bytes(m, k).decode('latin1'), 'v': model_bytes(m, v).decode('latin1')}
                 if o2.outcome[0] != 'return':
                     _term(ex, o2, res, 'parse', w); continue
                 got = o2.outcome[1]
+                if ob == 'target':
+                    if got.variant != 'Ok' or got.fields[0].variant != 'Some':
+                        r, m = ex.check(o2.pc)
+                        if r == 'sat': res['violations'].append({'key': 'C17:target-query-lost' + classify(w(m)['k'] + '\x00' + w(m)['v']), 'text': 'Request::get_uri_query returns %s for %r' % (got.variant, w(m)), 'witness': w(m)})
+                        continue
+                    got = got.fields[0].fields[0]
                 if ob == 'form':
                     if got.variant != 'Ok':
                         r, m = ex.check(o2.pc)
@@ -95,6 +104,7 @@ def _term(ex, o, res, where, wit):
 def classify(s):
     """role: which reserved character is involved"""
     import re
+    if '?' in s: return ':contains-question-mark'
     if re.search(r'%(2[0-9A-F]|3[A-F]|40|5[BD]|0[AD])', s): return ':literal-percent-followed-by-a-decodable-hex-pair'
     for ch, name in (('%', 'percent'), ('+', 'plus'), (' ', 'space'), ('&', 'ampersand'), ('=', 'equals')):
         if ch in s: return ':contains-' + name
@@ -109,10 +119,12 @@ def main():
                        'non-ASCII text is outside the claim; the echo endpoints of the server are covered by C04/C05 sweeps, not here']
     cases = [dict(ob='component', n=n) for n in P['comp_lens']]
     for lens in P['pair_lens']:
-        cases.append(dict(ob='query', lens=lens)); cases.append(dict(ob='form', lens=lens))
+        cases.append(dict(ob='query', lens=lens)); cases.append(dict(ob='form', lens=lens)); cases.append(dict(ob='target', lens=lens))
     for al, n in P['small']: cases.append(dict(ob='component', n=n, alphabet=al))
     for al, lens in P['small_pairs']:
         cases.append(dict(ob='query', lens=lens, alphabet=al)); cases.append(dict(ob='form', lens=lens, alphabet=al))
+    for al, lens in [('?a#/', (1, 2)), ('?a#/', (2, 1))]:
+        cases.append(dict(ob='target', lens=lens, alphabet=al))
     results = chk.run_cases(case, cases, label='encode/build -> decode/parse', case_timeout=400 if chk.tier == 'quick' else 2400)
     chk.extra['results_compared'] = sum(r.get('compared', 0) for r in results)
 
@@ -122,6 +134,7 @@ def main():
             st, out = chk.oracle.run([('uri_roundtrip', [w['s'].encode('latin1')])])[0]
             return {'reproduced': st != 'ok' or out[1].decode('latin1') != w['s'], 'native': (st, [x.decode('latin1') for x in out])}
         st, out = chk.oracle.run([('query_roundtrip', [w['ob'].encode(), w['k'].encode('latin1'), w['v'].encode('latin1')])])[0]
+        if w['ob'] == 'target' and st == 'err': return {'reproduced': True, 'native': st}
         if st != 'ok': return {'reproduced': True, 'native': st}
         got = [(out[i].decode('latin1'), out[i + 1].decode('latin1')) for i in range(1, len(out), 2)]
         return {'reproduced': got != [(w['k'], w['v'])], 'native_query': out[0].decode('latin1'), 'native_fields': got}
